@@ -6,42 +6,66 @@ import (
 	"osmcheck/core"
 )
 
-// Mutants and silent variants for C03.T6. They add a hand-written Member.UnmarshalXML (the shape of seed C03-e:
-// attributes read off the start element, <nd> children handed to DecodeElement in a token loop) to osm.go, which
-// already imports encoding/xml and fmt. The variants differ only in where the scratch WayNode lives.
+// Mutants and silent variants for C03.T6. They add a hand-written Member.UnmarshalXML (the shape of seeds C03-e and
+// C03-f: attributes read off the start element with strconv, <nd> children handed to DecodeElement in a token loop)
+// to osm.go, right after its import block (which the overlay extends). The variants differ in where the scratch
+// WayNode lives and in how the numeric attributes are converted.
 
-const c03MemberAnchor = "// Append will add the given object to the OSM object.\n"
+const c03OsmImports = "import (\n\t\"encoding/xml\"\n\t\"fmt\"\n)\n"
 
-// c03MemberDecoder builds the method: pre = statements before the token loop, top = statements at the start of the
-// <nd> branch, target = the DecodeElement target expression, keep = the statement storing the decoded node.
+const c03OsmImportsPlus = "import (\n\t\"encoding/xml\"\n\t\"fmt\"\n\t\"strconv\"\n\t\"strings\"\n\n\t\"github.com/paulmach/orb\"\n)\n\n"
+
+// c03MemberDecoder builds the method: global = extra package-level declarations, pre = statements before the token
+// loop, top = statements at the start of the <nd> branch, target = the DecodeElement target, keep = the statement
+// storing the decoded node.
 func c03MemberDecoder(global, pre, top, target, keep string) string {
-	return global + "// UnmarshalXML reads a member's attributes off the start element.\nfunc (m *Member) UnmarshalXML(d *xml.Decoder, start xml.StartElement) error {\n" +
-		"\tfor _, a := range start.Attr {\n\t\tvar err error\n\t\tswitch a.Name.Local {\n\t\tcase \"type\":\n\t\t\tm.Type = Type(a.Value)\n\t\tcase \"role\":\n\t\t\tm.Role = a.Value\n" +
-		"\t\tcase \"ref\":\n\t\t\t_, err = fmt.Sscan(a.Value, &m.Ref)\n\t\tcase \"version\":\n\t\t\t_, err = fmt.Sscan(a.Value, &m.Version)\n\t\tcase \"changeset\":\n\t\t\t_, err = fmt.Sscan(a.Value, &m.ChangesetID)\n" +
-		"\t\tcase \"orientation\":\n\t\t\t_, err = fmt.Sscan(a.Value, &m.Orientation)\n\t\tcase \"lat\":\n\t\t\t_, err = fmt.Sscan(a.Value, &m.Lat)\n\t\tcase \"lon\":\n\t\t\t_, err = fmt.Sscan(a.Value, &m.Lon)\n\t\t}\n\t\tif err != nil {\n\t\t\treturn err\n\t\t}\n\t}\n\n" +
+	return c03OsmImportsPlus + global + "// UnmarshalXML reads a member's attributes off the start element.\nfunc (m *Member) UnmarshalXML(d *xml.Decoder, start xml.StartElement) error {\n" +
+		"\tfor _, a := range start.Attr {\n\t\tvar (\n\t\t\ti   int64\n\t\t\terr error\n\t\t)\n\t\ttext := strings.TrimSpace(a.Value)\n\t\tswitch a.Name.Local {\n\t\tcase \"type\":\n\t\t\tm.Type = Type(a.Value)\n\t\tcase \"role\":\n\t\t\tm.Role = a.Value\n" +
+		"\t\tcase \"ref\":\n\t\t\tm.Ref, err = strconv.ParseInt(text, 10, 64)\n\t\tcase \"version\":\n\t\t\ti, err = strconv.ParseInt(text, 10, strconv.IntSize)\n\t\t\tm.Version = int(i)\n\t\tcase \"changeset\":\n\t\t\ti, err = strconv.ParseInt(text, 10, 64)\n\t\t\tm.ChangesetID = ChangesetID(i)\n" +
+		"\t\tcase \"orientation\":\n\t\t\ti, err = strconv.ParseInt(text, 10, 8)\n\t\t\tm.Orientation = orb.Orientation(i)\n\t\tcase \"lat\":\n\t\t\tm.Lat, err = strconv.ParseFloat(text, 64)\n\t\tcase \"lon\":\n\t\t\tm.Lon, err = strconv.ParseFloat(text, 64)\n\t\t}\n\t\tif err != nil {\n\t\t\treturn fmt.Errorf(\"member attribute %s: %v\", a.Name.Local, err)\n\t\t}\n\t}\n\n" +
 		pre + "\tfor {\n\t\ttok, err := d.Token()\n\t\tif err != nil {\n\t\t\treturn err\n\t\t}\n\n\t\tswitch t := tok.(type) {\n\t\tcase xml.StartElement:\n\t\t\tif t.Name.Local != \"nd\" {\n\t\t\t\tif err := d.Skip(); err != nil {\n\t\t\t\t\treturn err\n\t\t\t\t}\n\t\t\t\tcontinue\n\t\t\t}\n\n" +
 		top + "\t\t\tif err := d.DecodeElement(" + target + ", &t); err != nil {\n\t\t\t\treturn err\n\t\t\t}\n" + keep +
-		"\t\tcase xml.EndElement:\n\t\t\treturn nil\n\t\t}\n\t}\n}\n\n" + c03MemberAnchor
+		"\t\tcase xml.EndElement:\n\t\t\treturn nil\n\t\t}\n\t}\n}\n"
 }
 
 const c03KeepValue = "\t\t\tm.Nodes = append(m.Nodes, nd)\n"
 
+// c03GoodMember is the decoder with a fresh scratch node per <nd> and strconv conversions.
+var c03GoodMember = c03MemberDecoder("", "", "\t\t\tvar nd WayNode\n", "&nd", c03KeepValue)
+
+func c03MemberWith(old, new string) string { return strings.Replace(c03GoodMember, old, new, 1) }
+
+const c03HandInt = "func parseDigits(s string) (int64, error) {\n\tvar n int64\n\tfor i := 0; i < len(s); i++ {\n\t\tif s[i] < '0' || s[i] > '9' {\n\t\t\treturn strconv.ParseInt(s, 10, 64)\n\t\t}\n\t\tn = n*10 + int64(s[i]-'0')\n\t}\n\treturn n, nil\n}\n"
+
+const c03HandCoord = "func parseCoord(s string) (float64, error) {\n\tvar mant uint64\n\tfrac, point := 0, false\n\tfor i := 0; i < len(s); i++ {\n\t\tswitch c := s[i]; {\n\t\tcase c == '.' && !point:\n\t\t\tpoint = true\n\t\tcase '0' <= c && c <= '9' && i < 19:\n\t\t\tmant = mant*10 + uint64(c-'0')\n\t\t\tif point {\n\t\t\t\tfrac++\n\t\t\t}\n\t\tdefault:\n\t\t\treturn strconv.ParseFloat(s, 64)\n\t\t}\n\t}\n\tf := float64(mant)\n\tfor ; frac > 0; frac-- {\n\t\tf /= 10\n\t}\n\treturn f, nil\n}\n"
+
 var c03FreshMutants = []core.Mutant{
-	{Name: "t6-scratch-node-declared-before-loop", File: "osm.go", Find: c03MemberAnchor,
+	{Name: "t6-scratch-node-declared-before-loop", File: "osm.go", Find: c03OsmImports,
 		Replace: c03MemberDecoder("", "\tvar nd WayNode\n", "", "&nd", c03KeepValue), ExpectRule: "T6", ExpectConstruct: "fresh \"nd\"@(*Member).UnmarshalXML"},
-	{Name: "t6-scratch-node-partially-reset", File: "osm.go", Find: c03MemberAnchor,
+	{Name: "t6-scratch-node-partially-reset", File: "osm.go", Find: c03OsmImports,
 		Replace: c03MemberDecoder("", "\tvar nd WayNode\n", "\t\t\tnd.Lat, nd.Lon = 0, 0\n", "&nd", c03KeepValue), ExpectRule: "T6", ExpectConstruct: "fresh \"nd\"@(*Member).UnmarshalXML"},
-	{Name: "t6-scratch-pointer-allocated-once", File: "osm.go", Find: c03MemberAnchor,
+	{Name: "t6-scratch-pointer-allocated-once", File: "osm.go", Find: c03OsmImports,
 		Replace: c03MemberDecoder("", "\tnd := new(WayNode)\n", "", "nd", "\t\t\tm.Nodes = append(m.Nodes, *nd)\n"), ExpectRule: "T6", ExpectConstruct: "fresh \"nd\"@(*Member).UnmarshalXML"},
-	{Name: "t6-node-slice-shared-through-package-scratch", File: "osm.go", Find: c03MemberAnchor,
+	{Name: "t6-node-slice-shared-through-package-scratch", File: "osm.go", Find: c03OsmImports,
 		Replace: c03MemberDecoder("var memberNodeScratch WayNodes\n\n", "\tmemberNodeScratch = memberNodeScratch[:0]\n", "\t\t\tvar nd WayNode\n", "&nd", "\t\t\tmemberNodeScratch = append(memberNodeScratch, nd)\n\t\t\tm.Nodes = memberNodeScratch\n"), ExpectRule: "T6", ExpectConstruct: "noalias@(*Member).UnmarshalXML"},
-	{Name: "t6-attribute-stored-into-other-field", File: "osm.go", Find: c03MemberAnchor,
-		Replace: strings.Replace(c03MemberDecoder("", "", "\t\t\tvar nd WayNode\n", "&nd", c03KeepValue), "fmt.Sscan(a.Value, &m.Lat)", "fmt.Sscan(a.Value, &m.Lon)", 1), ExpectRule: "T6", ExpectConstruct: "attr@(*Member).UnmarshalXML lat"},
+	{Name: "t6-attribute-stored-into-other-field", File: "osm.go", Find: c03OsmImports,
+		Replace: c03MemberWith("m.Lat, err = strconv.ParseFloat(text, 64)", "m.Lon, err = strconv.ParseFloat(text, 64)"), ExpectRule: "T6", ExpectConstruct: "attr@(*Member).UnmarshalXML lat"},
+	{Name: "t6-coordinate-from-own-digit-arithmetic", File: "osm.go", Find: c03OsmImports,
+		Replace: c03MemberWith("m.Lat, err = strconv.ParseFloat(text, 64)", "m.Lat, err = parseCoord(text)") + "\n" + c03HandCoord, ExpectRule: "T6", ExpectConstruct: "conv@(*Member).UnmarshalXML lat"},
+	{Name: "t6-integer-from-hand-written-digit-loop", File: "osm.go", Find: c03OsmImports,
+		Replace: c03MemberWith("m.Ref, err = strconv.ParseInt(text, 10, 64)", "m.Ref, err = parseDigits(text)") + "\n" + c03HandInt, ExpectRule: "T6", ExpectConstruct: "conv@(*Member).UnmarshalXML ref"},
+	{Name: "t6-coordinate-parsed-at-32-bits", File: "osm.go", Find: c03OsmImports,
+		Replace: c03MemberWith("m.Lon, err = strconv.ParseFloat(text, 64)", "m.Lon, err = strconv.ParseFloat(text, 32)"), ExpectRule: "T6", ExpectConstruct: "conv@(*Member).UnmarshalXML lon"},
+	{Name: "t6-reference-parsed-in-base-0", File: "osm.go", Find: c03OsmImports,
+		Replace: c03MemberWith("m.Ref, err = strconv.ParseInt(text, 10, 64)", "m.Ref, err = strconv.ParseInt(text, 0, 64)"), ExpectRule: "T6", ExpectConstruct: "conv@(*Member).UnmarshalXML ref"},
 }
 
-// c03FreshBenign: the same decoder with a fresh target per <nd>; every rule must be silent.
+// c03FreshBenign: the same decoder with a fresh target per <nd> and strconv on the trimmed text of every numeric
+// attribute; every rule must be silent.
 var c03FreshBenign = []core.Mutant{
-	{Name: "t6-scratch-node-declared-in-loop", File: "osm.go", Find: c03MemberAnchor, Replace: c03MemberDecoder("", "", "\t\t\tvar nd WayNode\n", "&nd", c03KeepValue)},
-	{Name: "t6-scratch-node-reset-at-loop-top", File: "osm.go", Find: c03MemberAnchor, Replace: c03MemberDecoder("", "\tvar nd WayNode\n", "\t\t\tnd = WayNode{}\n", "&nd", c03KeepValue)},
-	{Name: "t6-new-pointer-per-node", File: "osm.go", Find: c03MemberAnchor, Replace: c03MemberDecoder("", "", "\t\t\tnd := new(WayNode)\n", "nd", "\t\t\tm.Nodes = append(m.Nodes, *nd)\n")},
+	{Name: "t6-scratch-node-declared-in-loop", File: "osm.go", Find: c03OsmImports, Replace: c03GoodMember},
+	{Name: "t6-scratch-node-reset-at-loop-top", File: "osm.go", Find: c03OsmImports, Replace: c03MemberDecoder("", "\tvar nd WayNode\n", "\t\t\tnd = WayNode{}\n", "&nd", c03KeepValue)},
+	{Name: "t6-new-pointer-per-node", File: "osm.go", Find: c03OsmImports, Replace: c03MemberDecoder("", "", "\t\t\tnd := new(WayNode)\n", "nd", "\t\t\tm.Nodes = append(m.Nodes, *nd)\n")},
+	{Name: "t6-conversions-through-helper", File: "osm.go", Find: c03OsmImports,
+		Replace: c03MemberWith("m.Lat, err = strconv.ParseFloat(text, 64)", "m.Lat, err = attrFloat(a)") + "\nfunc attrFloat(a xml.Attr) (float64, error) {\n\treturn strconv.ParseFloat(strings.TrimSpace(a.Value), 64)\n}\n"},
 }
